@@ -1,8 +1,10 @@
 #!/bin/bash
-# seedpar.sh id1 id2 ...: run the kept seeds on three isolated slots in parallel (tools/seed.py runiso)
+# seedpar.sh id1 id2 ...: run the kept seeds on three isolated slots in parallel (tools/seed.py runiso).
+# SLOT_OFFSET=3 uses slots s4..s6 (so that two batches can run side by side).
 cd "$(dirname "$0")/.."
 ids=("$@")
+off=${SLOT_OFFSET:-0}
 for slot in 0 1 2; do
-  ( i=$slot; while [ $i -lt ${#ids[@]} ]; do python3 tools/seed.py runiso s$((slot+1)) ${ids[$i]} 2>&1 | grep -E "caught|MISSED|apply"; i=$((i+3)); done ) &
+  ( i=$slot; while [ $i -lt ${#ids[@]} ]; do python3 tools/seed.py runiso s$((slot+1+off)) ${ids[$i]} 2>&1 | grep -E "caught|MISSED|apply"; i=$((i+3)); done ) &
 done
 wait
